@@ -24,3 +24,10 @@ package cache
 //@   ensures [cursor-advances-by-written] err == nil ==> n == len(p) && f.Buffer.Index == old(f.Buffer.Index) + len(p)
 //@   ensures [overwrites-in-place] err == nil ==> bufLen[f.Buffer.Buff] == ite(old(bufLen[f.Buffer.Buff]) >= f.Buffer.Index, old(bufLen[f.Buffer.Buff]), f.Buffer.Index)
 //@   ensures [never-shrinks] bufLen[f.Buffer.Buff] >= old(bufLen[f.Buffer.Buff])
+
+// Truncating the in-memory cache cuts the content and leaves the cursor where it is (cache.WriteCache.Truncate in
+// /verif/specs/70_file.spec; the file layer relies on it for the byte-array-with-cursor view).
+//@ func (filebufferWithSize).Truncate
+//@   property C14
+//@   modifies *, bufLen[f.Buffer.Buff]
+//@   ensures [truncate-keeps-the-cursor] f.Buffer.Index == old(f.Buffer.Index)
